@@ -249,7 +249,10 @@ def run(ctx):
     # merging sorted runs only happens with ≥ 2 partitions / batches: an index-space mix-up in the merge comparators leaves
     # single-run sorts intact and changes the order (or the LIMIT slice) only for some configurations
     merge = rule_idxspace(facts, rule="C03-MERGEIDX", only=lambda fid: "::sort::binary_merge" in fid or "::sort::merge" in fid or "merge_queue" in fid, floor=4)
-    return [rule_range(facts), rule_count(facts), rule_limit(facts), merge]
+    from .c14 import rule_cursor
+    # chunked appends only span several chunks for some batch sizes (batch_size > chunk capacity): a cursor that is not advanced
+    # leaves default settings intact and corrupts table contents only for other configurations
+    return [rule_range(facts), rule_count(facts), rule_limit(facts), merge, rule_cursor(facts, "C03-APPENDCUR", ["glaredb_core"], 1)]
 
 
 CLAIM = {
